@@ -189,6 +189,7 @@ var schemaTypeComparisonMap = map[SchemaType][]SchemaType{
 	},
 	SchemaTypeNull: {
 		SchemaTypeNull,
+		SchemaTypeArray,
 		SchemaTypeEnum,
 		SchemaTypeMixed,
 		SchemaTypeAny,
